@@ -978,6 +978,14 @@ struct Rewriter {
     /// SELECT list of the partial query.
     partial_items: Vec<sa::SelectItem>,
     next_agg: usize,
+    /// Merge expression of the FIRST occurrence of each aggregate call, by
+    /// its text. Reused only inside `IN (...)` / `BETWEEN` (see `reuse`).
+    agg_memo: Vec<(String, sa::Expr)>,
+    /// > 0 while rewriting the operands of an `IN (...)` list or a `BETWEEN`.
+    /// The engine evaluates an aggregate there only if the very same call is
+    /// in the SELECT list (it matches them by text); the single-node statement
+    /// satisfies that, and the merge query must keep it true.
+    reuse: usize,
 }
 
 impl Rewriter {
@@ -993,6 +1001,8 @@ impl Rewriter {
             group_keys: group_exprs.iter().map(|g| g.to_string()).collect(),
             partial_items,
             next_agg: 0,
+            agg_memo: Vec::new(),
+            reuse: 0,
         }
     }
 
@@ -1089,24 +1099,34 @@ impl Rewriter {
                 negated,
                 low,
                 high,
-            } => sa::Expr::Between {
-                expr: Box::new(self.rewrite(expr)?),
-                negated: *negated,
-                low: Box::new(self.rewrite(low)?),
-                high: Box::new(self.rewrite(high)?),
-            },
+            } => {
+                self.reuse += 1;
+                let e = self.rewrite(expr);
+                let l = self.rewrite(low);
+                let h = self.rewrite(high);
+                self.reuse -= 1;
+                sa::Expr::Between {
+                    expr: Box::new(e?),
+                    negated: *negated,
+                    low: Box::new(l?),
+                    high: Box::new(h?),
+                }
+            }
             sa::Expr::InList {
                 expr,
                 list,
                 negated,
-            } => sa::Expr::InList {
-                expr: Box::new(self.rewrite(expr)?),
-                list: list
-                    .iter()
-                    .map(|l| self.rewrite(l))
-                    .collect::<Result<Vec<_>>>()?,
-                negated: *negated,
-            },
+            } => {
+                self.reuse += 1;
+                let e = self.rewrite(expr);
+                let items: Result<Vec<sa::Expr>> = list.iter().map(|l| self.rewrite(l)).collect();
+                self.reuse -= 1;
+                sa::Expr::InList {
+                    expr: Box::new(e?),
+                    list: items?,
+                    negated: *negated,
+                }
+            }
             sa::Expr::Function(func) => self.rewrite_function(func)?,
             other => {
                 return Err(unsupported(format!(
@@ -1153,9 +1173,15 @@ impl Rewriter {
             if !clauses.is_empty() {
                 return Err(unsupported(format!("{name}(... ORDER BY/LIMIT ...)")));
             }
+            let memo_key = func.to_string();
+            if self.reuse > 0 {
+                if let Some((_, merged)) = self.agg_memo.iter().find(|(k, _)| *k == memo_key) {
+                    return Ok(merged.clone());
+                }
+            }
             let k = self.next_agg;
             self.next_agg += 1;
-            return Ok(match name.as_str() {
+            let merged = match name.as_str() {
                 // COUNT of counts is a SUM. `SUM(BIGINT)` stays BIGINT in this
                 // engine, so the merged type matches the single-node one.
                 "COUNT" => {
@@ -1190,7 +1216,11 @@ impl Rewriter {
                     }
                 }
                 _ => unreachable!("is_supported_aggregate covers exactly these"),
-            });
+            };
+            if !self.agg_memo.iter().any(|(k, _)| *k == memo_key) {
+                self.agg_memo.push((memo_key, merged.clone()));
+            }
+            return Ok(merged);
         }
 
         if is_known_aggregate(&name) {
